@@ -10,6 +10,7 @@ import shutil
 import tempfile
 import threading
 import time
+import zlib
 from typing import Any, Dict, List, Optional
 
 from hypothesis import strategies as st
@@ -45,7 +46,26 @@ def c18_case(draw):
             break
     else:
         c = {"nodes": [{"p": "FloatDataSource"}, {"p": "FloatSquareOperation"}], "ctx": {}, "data": M.NODATA}
-    way = draw(st.sampled_from(WAYS))
+    # the way of repeating is a hash of the generated pipeline, not a draw: Hypothesis favours the first alternative of a
+    # choice made late in a large case, which starved three of the four ways
+    way = WAYS[zlib.crc32(json.dumps(c, sort_keys=True, default=repr).encode()) % len(WAYS)]
+    if draw(st.booleans()) and not any(n.get("sweep") for n in c["nodes"]):
+        # half of the cases are made to contain a parameter sweep (per-run generated classes are where residue usually comes from)
+        m0 = M.run(c)
+        kind0 = M.describe(c["nodes"][0])["kind"]
+        if kind0 in ("source", "payload_source") and draw(st.booleans()):
+            c2 = dict(c, nodes=[{"p": "FloatValueDataSource", "sweep": {"vars": {"t": {"kind": "values", "values": [1.0, 2.0]}}, "params": {"value": "2.0 * t"},
+                                                                       "mode": "combinatorial", "broadcast": False, "collection": "FloatDataCollection"}},
+                                {"p": "FloatCollectionSumOperation"}] + c["nodes"][1:])
+        else:
+            spots = [e["index"] + 1 for e in m0["log"] if M.kind_of(e["out"]) == "Float"]
+            at = spots[0] if spots else None
+            c2 = c if at is None else dict(c, nodes=c["nodes"][:at] + [
+                {"p": "FloatMultiplyOperation", "sweep": {"vars": {"t": {"kind": "values", "values": [1.0, 2.0]}}, "params": {"factor": "t + 1.0"},
+                                                           "mode": "combinatorial", "broadcast": False, "collection": "FloatDataCollection"}},
+                {"p": "FloatCollectionSumOperation"}] + c["nodes"][at:])
+        if c2 is not c and M.run(c2)["ok"]:
+            c = c2
     if way in ("launch",) and M.describe(c["nodes"][0])["kind"] not in ("source", "payload_source"):
         c = {"nodes": [{"p": "FloatValueDataSource", "params": {"value": 2.0}}] + [n for n in c["nodes"] if M.describe(n)["kind"] not in ("source", "payload_source")],
              "ctx": c["ctx"], "data": M.NODATA}
